@@ -102,6 +102,10 @@ def oracle_all(ctx, o, first_only=False):
             hh = vc.using(h, kw)
             ck = vc.ctx_kwds(h, rng)
             secret = vc.gen_secret(rng, kind=rng.choice(["ascii", "ascii", "text"]) if name in vc.TEXT_ONLY else None)
+            if name == "lmhash" and not secret.isascii():
+                # lmhash takes bytes as already being in its code page (cp437), not as UTF-8: "text equals its UTF-8 bytes" is not its
+                # contract; non-ASCII passwords are exercised with the right code page in the `encoding` section below
+                secret = vc.gen_secret(rng, kind="ascii")
             if vc.BASE.get(name, name) in vc.DES_FAMILY:
                 secret = secret.replace(b"\x80", b"\x81")
             if name in ("cisco_pix",):
